@@ -303,3 +303,184 @@ def to_case(r, opts='-'):
         items = ','.join(hx(i) for i in f.items) or '-'
         fs.append('%d/%s/%s/%s/%s' % (f.fid, hx(f.fstart), hx(f.fend), chars, items))
     return [r.start_blk.hex(), gecko, end, meta, ';'.join(fs) or '-', opts]
+
+
+# ---------------------------------------------------------------------------------------------
+# event-level view (for irregular and malformed streams)
+
+def events_of(r):
+    """the raw stream after Game Start as a list of (kind, bytes) events"""
+    evs = []
+    if r.gecko is not None:
+        actual, data = r.gecko
+        pos = 0
+        while pos < actual:
+            last = pos + 512 >= actual
+            evs.append(('split', bytes([0x10]) + data[pos:pos + 512] + struct.pack('>H', min(512, actual - pos)) + bytes([0x3D, 1 if last else 0])))
+            pos += 512
+    v = r.ver
+    for fi, f in enumerate(r.frames):
+        if gte(v, 2, 2): evs.append(('fstart', bytes([0x3A]) + struct.pack('>i', f.fid) + f.fstart))
+        for (p, fol, pre, post) in f.chars:
+            evs.append(('pre', bytes([0x37]) + struct.pack('>i', f.fid) + bytes([p, fol]) + pre))
+        if gte(v, 3, 0):
+            for it in f.items: evs.append(('item', bytes([0x3B]) + struct.pack('>i', f.fid) + it))
+        for (p, fol, pre, post) in f.chars:
+            evs.append(('post', bytes([0x38]) + struct.pack('>i', f.fid) + bytes([p, fol]) + post))
+        if gte(v, 3, 0): evs.append(('fend', bytes([0x3C]) + struct.pack('>i', f.fid) + f.fend))
+    if r.end:
+        evs.append(('end', bytes([0x39]) + r.end_blk))
+        if r.end == 'double': evs.append(('end', bytes([0x39]) + r.end_blk))
+    return evs
+
+
+def assemble(r, evs, table=None, raw_len=None, metadata='same', tail=b''):
+    t = table if table is not None else payload_table(r)
+    raw = bytes([0x35, (len(t) * 3 + 1) & 0xff]) + b''.join(bytes([c]) + struct.pack('>H', s) for c, s in t)
+    raw += bytes([0x36]) + r.start_blk + b''.join(e[1] for e in evs) + tail
+    return wrap(raw, r.metadata if metadata == 'same' else metadata, raw_len)
+
+
+UNKNOWN_CODES = [0x11, 0x3E, 0x7E, 0xFF, 0x01, 0x40]
+
+
+def with_unknown_events(rng, r, density=0.3):
+    """(bytes with unknown declared events inserted at random boundaries after Game Start, bytes without)"""
+    codes = rng.sample(UNKNOWN_CODES, rng.randrange(1, 4))
+    sizes = {c: rng.choice([1, 2, 7, 64, 300]) for c in codes}
+    t = payload_table(r) + [(c, sizes[c]) for c in codes]
+    rng.shuffle(t)
+    # keep Game Start / Game End entries (any order is accepted by the reader)
+    evs = events_of(r)
+    out = []
+    def junk():
+        c = rng.choice(codes)
+        return ('unknown', bytes([c]) + rb(rng, sizes[c]))
+    # the event stream ends with the first Game End (what follows it inside the raw element is trailing content,
+    # not events: see C17), so insertions go anywhere before it
+    seen_end = False
+    for e in evs:
+        if not seen_end:
+            while rng.random() < density: out.append(junk())
+        out.append(e)
+        if e[0] == 'end': seen_end = True
+    if not r.end:
+        while rng.random() < density: out.append(junk())
+    if not any(k == 'unknown' for k, _ in out):
+        first_end = next((i for i, e in enumerate(out) if e[0] == 'end'), len(out))
+        out.insert(rng.randrange(0, first_end + 1), junk())
+    return assemble(r, out, table=t), emit(r), out
+
+
+def permute_in_frames(rng, r):
+    """non-canonical event order inside frames: any order of pre/item/post between Frame Start and Frame End (>= 3.0),
+    keeping each character's pre before nothing in particular (the reader does not care)"""
+    evs = events_of(r)
+    out = []; cur = None
+    for e in evs:
+        if e[0] == 'fstart':
+            cur = []; out.append(e)
+        elif e[0] == 'fend':
+            rng.shuffle(cur); out.extend(cur); out.append(e); cur = None
+        elif cur is not None and e[0] in ('pre', 'post', 'item'):
+            cur.append(e)
+        else:
+            out.append(e)
+    return assemble(r, out)
+
+
+def canon_of_permuted(r):
+    return emit(r)
+
+
+def junk_after_end(rng, r):
+    """extra bytes inside the raw element after Game End"""
+    assert r.end
+    n = rng.choice([1, 2, 5, 7, 30])
+    if r.end == 'single':
+        sz = 1 + len(r.end_blk)
+        while n == sz: n += 1
+    return assemble(r, events_of(r), tail=rb(rng, n))
+
+
+def mutate_structural(rng, r):
+    """one malformed stream derived from a well-formed replay (G-mal); returns (bytes, description)"""
+    evs = events_of(r)
+    t = payload_table(r)
+    kind = rng.choice(['del', 'dup', 'swap', 'wrongid', 'port', 'follower', 'illegal', 'table', 'rawlen', 'bytes', 'trunc', 'splitter',
+                       'deepmeta', 'badmeta', 'startblk', 'endblk', 'header', 'insert'])
+    md = r.metadata
+    raw_len = None
+    desc = kind
+    if kind == 'del' and evs:
+        del evs[rng.randrange(len(evs))]
+    elif kind == 'dup' and evs:
+        i = rng.randrange(len(evs)); evs.insert(i, evs[i])
+    elif kind == 'swap' and len(evs) > 1:
+        i, j = rng.randrange(len(evs)), rng.randrange(len(evs)); evs[i], evs[j] = evs[j], evs[i]
+    elif kind == 'wrongid':
+        idx = [i for i, e in enumerate(evs) if e[0] in ('pre', 'post', 'item', 'fend', 'fstart')]
+        if idx:
+            i = rng.choice(idx); b = bytearray(evs[i][1]); b[1:5] = struct.pack('>i', rng.choice([-124, 0, 2**31 - 1, -2**31, struct.unpack('>i', b[1:5])[0] + 1])); evs[i] = (evs[i][0], bytes(b))
+    elif kind == 'port':
+        idx = [i for i, e in enumerate(evs) if e[0] in ('pre', 'post')]
+        if idx:
+            i = rng.choice(idx); b = bytearray(evs[i][1]); b[5] = rng.choice([0, 1, 2, 3, 4, 7, 255]); evs[i] = (evs[i][0], bytes(b))
+    elif kind == 'follower':
+        idx = [i for i, e in enumerate(evs) if e[0] in ('pre', 'post')]
+        if idx:
+            i = rng.choice(idx); b = bytearray(evs[i][1]); b[6] ^= rng.choice([1, 2, 255]); evs[i] = (evs[i][0], bytes(b))
+    elif kind == 'illegal':
+        # an event of a kind the version does not have, declared in the table
+        c, n = rng.choice([(0x3A, 12), (0x3B, 44), (0x3C, 8), (0x10, 516), (0x3D, 10), (0x35, 4), (0x36, 4)])
+        t = [x for x in t if x[0] != c] + [(c, n)]
+        evs.insert(rng.randrange(len(evs) + 1), ('x', bytes([c]) + struct.pack('>i', rng.choice([-123, 0])) + rb(rng, n - 4)))
+    elif kind == 'table':
+        i = rng.randrange(len(t)); c, n = t[i]
+        t[i] = (rng.choice([c, c, rng.randrange(256)]), rng.choice([0, 1, 3, n - 1, n + 1, 5, 65535]))
+    elif kind == 'rawlen':
+        full = assemble(r, evs, table=t)
+        real = struct.unpack('>I', full[11:15])[0]
+        raw_len = rng.choice([0, 1, 5, real - 1, real + 1, real - 7, real + 7, 0xffffffff, 0x7fffffff, len(r.start_blk) + 20])
+        raw_len = max(0, raw_len)
+    elif kind == 'splitter':
+        n = rng.choice([515, 516, 517, 4])
+        blk = bytearray(rb(rng, n))
+        if n >= 516:
+            blk[512:514] = struct.pack('>H', rng.choice([0, 512, 513, 65535])); blk[514] = rng.choice([0x3D, 0x37, 0x39, 0x10, 0x99]); blk[515] = rng.choice([0, 1])
+        t = [x for x in t if x[0] != 0x10] + [(0x10, n)]
+        for _ in range(rng.randrange(1, 3)):
+            evs.insert(rng.randrange(len(evs) + 1), ('x', bytes([0x10]) + bytes(blk)))
+    elif kind == 'deepmeta':
+        d = rng.choice([126, 127, 128, 129, 500, 30000])
+        md = None
+        out = assemble(r, evs, table=t, metadata=None)
+        out = out[:-1] + b'U\x08metadata{' + b'U\x01a{' * (d - 1) + b'}' * (d - 1) + b'}' + b'}'
+        return out, 'deepmeta%d' % d
+    elif kind == 'badmeta':
+        out = assemble(r, evs, table=t, metadata=None)
+        tail = rng.choice([b'U\x08metadata{U\x01aSU\x02\xff\xfe}}', b'U\x08metadata{U\x01al\x00\x00}}', b'U\x08metadata{U\x01aX}}', b'U\x08metadata{',
+                           b'U\x07metadat{}}', b'X', b'', b'U\x08metadata{U\x01aSX\x01a}}', b'U\x08metadata{i\x01a}}', b'U\x08metadata{U\xffa}}'])
+        return out[:-1] + tail, 'badmeta'
+    elif kind == 'startblk':
+        b = bytearray(r.start_blk)
+        for _ in range(rng.randrange(1, 4)):
+            b[rng.randrange(len(b))] = rng.randrange(256)
+        r2 = Replay(r.ver, bytes(b), r.ports, r.frames, r.end, r.end_blk, r.metadata, r.gecko)
+        return assemble(r2, evs, table=t), 'startblk'
+    elif kind == 'endblk' and r.end:
+        i = [k for k, e in enumerate(evs) if e[0] == 'end'][0]
+        b = bytearray(evs[i][1]); b[rng.randrange(1, len(b))] = rng.randrange(256); evs[i] = ('end', bytes(b))
+    elif kind == 'insert':
+        evs.insert(rng.randrange(len(evs) + 1), ('x', rb(rng, rng.randrange(1, 9))))
+    out = assemble(r, evs, table=t, raw_len=raw_len, metadata=md)
+    if kind == 'bytes':
+        b = bytearray(out)
+        for _ in range(rng.randrange(1, 5)):
+            b[rng.randrange(len(b))] = rng.randrange(256)
+        out = bytes(b)
+    elif kind == 'trunc':
+        out = out[:rng.randrange(len(out))]
+    elif kind == 'header':
+        b = bytearray(out); b[rng.randrange(0, 17)] ^= rng.choice([1, 0x80, 0xff]); out = bytes(b)
+    return out, desc
